@@ -26,9 +26,32 @@ def get_lb() -> String[10]:
     return LB
 """
 
+# a SECOND initialised module that owns immutables (sibling of `lib`): the immutables section is the sum over ALL initialised modules
+LIB2 = """
+LC: immutable(uint256)
+LD: immutable(uint256[2])
+l2s: uint256
+
+@deploy
+def __init__(c: uint256):
+    LC = c
+    LD = [c, 7]
+    self.l2s = 5
+
+@internal
+def get_lc() -> uint256:
+    return LC
+
+@internal
+def get_ld(i: uint256) -> uint256:
+    return LD[i]
+"""
+
 MAIN = """
 import lib
+import lib2
 initializes: lib
+initializes: lib2
 
 flag F:
     A
@@ -51,6 +74,7 @@ last: public(uint256)
 @deploy
 def __init__(a: uint256, b: String[10], p: P, f: F, m: Bytes[40], d: DynArray[uint256, 4]):
     lib.__init__(a, b)
+    lib2.__init__(a)
     MA = p
     MF = f
     MB = m
@@ -77,6 +101,14 @@ def lb() -> String[10]:
 @external
 def lsv() -> uint256:
     return lib.ls
+
+@external
+def lc() -> uint256:
+    return lib2.get_lc()
+
+@external
+def ld(i: uint256) -> uint256:
+    return lib2.get_ld(i)
 
 @external
 @payable
@@ -114,6 +146,7 @@ def word(v):
 def _mods_dir():
     d = Path(tempfile.mkdtemp(prefix="c13mods"))
     (d / "lib.vy").write_text(LIB)
+    (d / "lib2.vy").write_text(LIB2)
     return d
 
 
@@ -169,7 +202,7 @@ def modules_case(ctx, cfg, rnd, exact_code, selector):
     sec = code[len(rt):]
     pw = word(p[0]) + word(p[1]) + word(int(p[2], 16))
     want = {
-        "lib.LA": word(a), "lib.LB": word(len(b)) + b.encode(), "MA": pw, "MF": word(f), "MB": word(len(m)) + m,
+        "lib.LA": word(a), "lib.LB": word(len(b)) + b.encode(), "lib2.LC": word(a), "lib2.LD": word(a) + word(7), "MA": pw, "MF": word(f), "MB": word(len(m)) + m,
         "MD": word(len(dd)) + b"".join(word(x) for x in dd), "MN": pw + word(1) + word(-2) + word(0),
     }
     for k, w in want.items():
@@ -185,7 +218,7 @@ def modules_case(ctx, cfg, rnd, exact_code, selector):
     exp = [
         ("MA()", b"", encode(["uint256", "int128", "address"], list(p))), ("MF()", b"", word(f)),
         ("MB()", b"", encode(["bytes"], [m])), ("s()", b"", word(a ^ p[0])), ("h()", b"", word(a ^ p[0])),
-        ("la()", b"", word(a)), ("lb()", b"", encode(["string"], [b])), ("lsv()", b"", word(a // 2 + 1)),
+        ("la()", b"", word(a)), ("lc()", b"", word(a)), ("ld(uint256)", word(0), word(a)), ("ld(uint256)", word(1), word(7)), ("lb()", b"", encode(["string"], [b])), ("lsv()", b"", word(a // 2 + 1)),
         ("MN(uint256)", word(0), encode(["uint256", "int128", "address"], list(p))),
         ("MN(uint256)", word(1), encode(["uint256", "int128", "address"], [1, -2, "0x" + "00" * 20])),
     ] + [("MD(uint256)", word(i), word(x)) for i, x in enumerate(dd)]
